@@ -135,6 +135,28 @@ func runC11(c *fw.Ctx) {
 			}
 			c.Count("purity_checks", 1)
 		}
+		// ---- (i') the same ParseResult on other inputs in between: A, B, A ----
+		{
+			other := genCase(c.Rng(id+"/other"), st.cfg)
+			alt := *cs
+			alt.Balances = other.Balances
+			oB, _ := real.RunCase(po.Result, &alt, real.Exact)
+			poFresh := real.Parse(txt)
+			if !poFresh.Panicked && len(poFresh.Errors) == 0 {
+				oBfresh, _ := real.RunCase(poFresh.Result, &alt, real.Exact)
+				if oB.Summary() != oBfresh.Summary() {
+					c.Violation("history-dependent", fmt.Sprintf("other balances on the already-used ParseResult: %s ⏎ on a fresh parse: %s", oB.Summary(), oBfresh.Summary()), input("second input: "+fmt.Sprint(alt.Describe()["balances"])))
+					return
+				}
+			}
+			oA, _ := real.RunCase(po.Result, cs, real.Exact)
+			c.Evals(3)
+			if oA.Summary() != ref {
+				c.Violation("history-dependent", fmt.Sprintf("after running other inputs in between, the first inputs give %s instead of %s", oA.Summary(), ref), input("second input: "+fmt.Sprint(alt.Describe()["balances"])))
+				return
+			}
+			c.Count("interleaved_input_checks", 1)
+		}
 		// ---- (iv) flags ----
 		callsOverdraft := false
 		for _, d := range cs.Script.Vars {
